@@ -82,6 +82,11 @@ _tok('shape6', [
     Rule('!q', [[L('x'), Opt(L('y')), Maybe(L('x'), T('S'))]]),
 ], ['X', 'Y', 'S'], {'unamb', 'shaping'}, declare=['S'])
 
+# nullable symbols met repeatedly in one Earley column, completions that have to propagate through unit rules
+_tok('nullnest', [Rule('start', [[N('e'), N('b'), A]]), Rule('b', [[N('e')]]), Rule('e', [[]])], ['A', 'B'], {'unamb'})
+_tok('nullnest2', [Rule('start', [[N('m'), N('m'), Opt(B)]]), Rule('m', [[N('e'), N('e')], [A]]), Rule('e', [[], [N('f')]]), Rule('f', [[B, B]])],
+     ['A', 'B'], {'ambiguous'})
+
 # ambiguity through inlined / conditionally inlined rules and through intermediate nodes
 _tok('amb_inl', [Rule('start', [[N('a'), N('a')]]), Rule('?a', [[N('_b')], [N('c')]]), Rule('_b', [[A], [A, A]]), Rule('c', [[A]])],
      ['A', 'B'], {'ambiguous', 'amb'})
@@ -132,6 +137,11 @@ _txt('kw', [
     Rule('s', [[L('if'), T('NAME')], [T('NAME'), L('=')], [T('ELSE')], [T('INT')]]),
 ], [Term('NAME', ('re', '[a-z]+')), Term('ELSE', ('str', 'else'), flags='i'), Term('INT', ('re', '[0-9]+')),
     Term('WS', ('re', r'[ \n]+'))], ignore=['WS'], tags={'lalr', 'kw'})
+
+# two ignored terminals that match at the same position with different ends (only the longer one leads on)
+_txt('ign2', [
+    Rule('start', [[Plus(T('WORD'))]]),
+], [Term('WORD', ('re', '[a-z]+')), Term('SP', ' '), Term('CONT', ' #'), Term('NLS', ('re', r'\n+'))], ignore=['SP', 'CONT', 'NLS'], tags={'dyn'})
 
 # colliding terminals: resolved dynamically by the Earley lexers
 _txt('collide', [
